@@ -65,13 +65,13 @@ def class_weights(tier):
     vds = VD_QUICK if tier == "quick" else VD_THOROUGH
     n_small = len(vds) * len(FAMS)
     # real-scale runs cost seconds each: 16 of 5000 in quick, 0.75% in thorough
-    real_share = 0.0032 if tier == "quick" else 0.0075
+    real_share = 0.0023 if tier == "quick" else 0.0075
     w_small = (1.0 - real_share) / n_small
     return [w_small] * n_small + [real_share / len(REAL_PATTERNS)] * len(REAL_PATTERNS)
 
 
 def n_runs(tier):
-    return 5_000 if tier == "quick" else 120_000
+    return 7_000 if tier == "quick" else 120_000
 
 
 def _outcome(fn):
